@@ -337,11 +337,28 @@ func RunCheck(verifDir, repoDir, prop, tier string, seed int, overlay map[string
 	if len(cr.Violations) > 0 {
 		exit = 1
 	}
-	if len(vacuousErr) > 0 {
-		for _, v := range vacuousErr {
-			fmt.Printf("ERROR vacuity probe %s was refuted: the contract's assumptions are contradictory\n", v)
+	// refuted reachability probes: dead code that was reviewed on the reference tree is listed (as a count per
+	// function and probe kind) in dead_probes.json; anything beyond that means contradictory assumptions
+	deadBase := map[string]map[string]int{}
+	_ = readJSON(filepath.Join(verifDir, "dead_probes.json"), &deadBase)
+	refuted := map[string]map[string]int{}
+	for _, v := range vacuousErr {
+		fn, kind := probeKey(v)
+		if refuted[fn] == nil {
+			refuted[fn] = map[string]int{}
 		}
-		exit = 2
+		refuted[fn][kind]++
+	}
+	var deadNotes []string
+	for fn, kinds := range refuted {
+		for kind, n := range kinds {
+			if kind != "requires" && n <= deadBase[fn][kind] {
+				deadNotes = append(deadNotes, fmt.Sprintf("%s: %d unreachable %s probe(s), as reviewed", fn, n, kind))
+				continue
+			}
+			fmt.Printf("ERROR %d %s reachability probe(s) of %s were refuted (reviewed dead code: %d): contradictory contract assumptions\n", n, kind, fn, deadBase[fn][kind])
+			exit = 2
+		}
 	}
 	if nObl == 0 {
 		fmt.Printf("ERROR no obligation was generated for %s\n", prop)
@@ -379,6 +396,7 @@ func RunCheck(verifDir, repoDir, prop, tier string, seed int, overlay map[string
 			"samples":                   samples,
 			"vacuity_probes_not_refuted": plantedOK,
 			"vacuity_probes_refuted":    vacuousErr,
+			"dead_code_reviewed":        deadNotes,
 			"abstracted":                abstracted,
 			"clauses_not_covered":       cfg.NotCovered,
 			"known_finding_obligations": nKnown,
@@ -393,6 +411,24 @@ func RunCheck(verifDir, repoDir, prop, tier string, seed int, overlay map[string
 	os.WriteFile(filepath.Join(verifDir, "evidence", prop+".json"), b, 0o644)
 	fmt.Printf("%s %s: %d obligations, %d discharged, %d known-finding obligations, %d violations, %d functions, %.1fs\n", prop, tier, nObl, nDis, nKnown, len(cr.Violations), len(funcsUnder), cr.Wall)
 	return exit
+}
+
+// probeKey splits a probe name into its function and kind (requires / return / backedge).
+func probeKey(name string) (string, string) {
+	i := strings.Index(name, ".vacuity.")
+	if i < 0 {
+		return name, "other"
+	}
+	rest := name[i+len(".vacuity."):]
+	switch {
+	case strings.HasPrefix(rest, "requires_sat"):
+		return name[:i], "requires"
+	case strings.HasPrefix(rest, "return_reachable"):
+		return name[:i], "return"
+	case strings.Contains(rest, "backedge_reachable"):
+		return name[:i], "backedge"
+	}
+	return name[:i], "other"
 }
 
 func knownForBase(known []KnownFinding, prop, base string) bool {
